@@ -81,6 +81,10 @@ class MessageExtractor:
                 if node.escapes:
                     # the filters, which may be calls with arguments
                     code = "%s | %s" % (code, node.escapes)
+            elif isinstance(node, parsetree.NamespaceTag):
+                # the defs written inside of a <%namespace>
+                yield from self.extract_nodes(node.nodes)
+                continue
             else:
                 continue
 
